@@ -411,7 +411,7 @@ func init() {
 			}
 			genArrivals(g, sc)
 			sc.SetInt("seqmode", 1)
-			sc.SetInt("raw", g.Intn(2))
+			sc.SetInt("raw", g.PickInt(0, 0, 1, 1, 2, 3))
 			return sc
 		},
 		Valid: c05Valid,
@@ -433,7 +433,7 @@ func init() {
 			for i := 0; i < k; i++ {
 				sc.Sources = append(sc.Sources, SrcSpec{Mode: "async", Script: genScript(g, (i+1)*10, 3, "CCE-", false)})
 			}
-			sc.SetInt("raw", g.Intn(2))
+			sc.SetInt("raw", g.PickInt(0, 0, 1, 1, 2, 3))
 			return sc
 		},
 		Valid: func(sc *Scn) bool {
@@ -487,7 +487,7 @@ func runC05Seq(e *Env) {
 		srcs = append(srcs, s)
 		obs = append(obs, s.Obs())
 	}
-	o := combs[sc.Sub].Build(e, obs)
+	o := combs[sc.Sub].Apply(e, obs)
 	rec := e.NewRec("o")
 	h := e.Subscribe(o, rec.Obs(), nil)
 	e.Settle()
@@ -592,7 +592,7 @@ func runC05Conc(e *Env) {
 		srcs = append(srcs, s)
 		obs = append(obs, s.Obs())
 	}
-	o := combs[sc.Sub].Build(e, obs)
+	o := combs[sc.Sub].Apply(e, obs)
 	rec := e.NewRec("o")
 	e.Subscribe(o, rec.Obs(), nil)
 	e.SettleFor(50 * Unit)
